@@ -42,6 +42,7 @@ def gen_timeline(rng, n, off_min, boundaries):
     t = (c14.days_from_civil(y0, rng.randint(2, 11), rng.randint(1, 28)) * 86400 + rng.randrange(86400)) * NS
     out = []
     crossed = 0
+    edge = rng.choice((None, None, "after", "before"))
     for i in range(n):
         if i > 0:
             r = rng.random()
@@ -59,6 +60,16 @@ def gen_timeline(rng, n, off_min, boundaries):
                 else:
                     crossed += 1
             t = t2
+        if i == n - 1 and edge is not None:
+            prev = out[-1] if out else t
+            y = world.civil(prev, off_min)[0]
+            ny = (c14.days_from_civil(y + 1, 1, 1) * 86400 - off_min * 60) * NS
+            if edge == "after":
+                cand = ny + rng.choice((0, 5, 3600, 5 * 3600, 11 * 3600)) * NS
+            else:
+                cand = ny - rng.choice((1, 10, 3600, 7 * 3600, 12 * 3600)) * NS
+            if cand >= prev and (cand - prev) < 299 * DAY:
+                t = cand
         k = 0
         while is_feb29(t, off_min) and k < 3:
             t += DAY
@@ -77,14 +88,21 @@ def gen_source(rng, path, letter, off_min, boundaries, n):
             d += b"  continued " + world._body(rng, rng.randint(0, 20), 0) + b"\n"
         out += d
         msgs.append(world.Msg(t, bytes(d), b"", off_min))
-    # modification time: after the last write, inside the last message's year (zone of the log), away from the edges
+    # modification time: at or after the last write, inside the last message's year (in the log's zone),
+    # including the very first and the very last seconds of that year
     last = inst[-1]
     y = world.civil(last, off_min)[0]
     year_end = (c14.days_from_civil(y + 1, 1, 1) * 86400 - off_min * 60) * NS
-    room = max(0, (year_end - 2 * DAY) - last)
-    mtime_ns = last + (rng.randrange(0, room // NS + 1) * NS if room > 0 else 0)
-    if rng.random() < 0.5:
+    room = max(0, (year_end - NS) - last)
+    r = rng.random()
+    if r < 0.4:
         mtime_ns = last + min(room, rng.choice((0, NS, 3600 * NS)))
+    elif r < 0.55:
+        mtime_ns = year_end - rng.choice((1, 2, 3600, 6 * 3600, 13 * 3600)) * NS
+        if mtime_ns < last:
+            mtime_ns = last
+    else:
+        mtime_ns = last + (rng.randrange(0, room // NS + 1) * NS if room > 0 else 0)
     return merge.Source(path, "text", msgs, bytes(out), bytes(out), "plain", {}, mtime_ns // NS)
 
 
